@@ -21,6 +21,9 @@ import time
 VERIF = os.path.dirname(os.path.dirname(os.path.abspath(__file__)))
 SPEC_DIR = os.path.join(VERIF, "spec")
 REPO = os.environ.get("VERIF_REPO", "/repo")
+# where evidence/ and replays/ are written: /verif itself, except for development runs against scratch copies
+# (reverted fixes, seeded changes), which must not rewrite the committed evidence
+OUT = os.environ.get("VERIF_OUT", VERIF)
 TLA_CP = "/opt/veriftools/tla/tla2tools.jar:/opt/veriftools/tla/CommunityModules-deps.jar"
 NCPU = os.cpu_count() or 4
 
@@ -214,7 +217,7 @@ def run_tlc(ctx, module, cfg, workers=None, timeout=900, env=None, extra=(), sim
         log = os.path.join(ctx.rundir, f"tlc_fail_{module}.log")
         with open(log, "w") as f:
             f.write(out)
-        keep = os.path.join(VERIF, "replays", f"{ctx.pid}-tlc-failure.log")
+        keep = os.path.join(OUT, "replays", f"{ctx.pid}-tlc-failure.log")
         os.makedirs(os.path.dirname(keep), exist_ok=True)
         shutil.copy(log, keep)
         raise MachineryError(f"TLC failed on {module}/{cfg} (rc={rc}): {res.error}; log {keep}")
@@ -307,8 +310,8 @@ class Ctx:
                 return
         if any(v.key == key for v in self.violations):
             return
-        os.makedirs(os.path.join(VERIF, "replays"), exist_ok=True)
-        path = os.path.join(VERIF, "replays", f"{self.pid}-{digest([key, record])}.json")
+        os.makedirs(os.path.join(OUT, "replays"), exist_ok=True)
+        path = os.path.join(OUT, "replays", f"{self.pid}-{digest([key, record])}.json")
         with open(path, "w") as f:
             json.dump({"property": self.pid, "key": key, "what": what, "seed": self.seed,
                        "tier": self.tier, "record": record}, f, indent=1, default=str)
@@ -384,8 +387,8 @@ class Ctx:
             "wall_s": round(wall, 2),
             "violations": len(self.violations),
         }
-        os.makedirs(os.path.join(VERIF, "evidence"), exist_ok=True)
-        with open(os.path.join(VERIF, "evidence", f"{self.pid}.json"), "w") as f:
+        os.makedirs(os.path.join(OUT, "evidence"), exist_ok=True)
+        with open(os.path.join(OUT, "evidence", f"{self.pid}.json"), "w") as f:
             json.dump(ev, f, indent=1, default=str)
         for fid, (f, n, what) in sorted(self.known_hits.items()):
             print(f"KNOWN-FINDING: property={self.pid} {f['site']}: {f['class']} ({n} observations)")
